@@ -253,6 +253,11 @@ def run(case):
     from clastic import Response
     cl = Client(app, Response)
     try:
+        # a first request with other URL values: nothing of it may show up in the second
+        path0 = '/x' + ''.join('/w%d' % i for i, u in enumerate(case.get('url', [])))
+        if path0 != path:
+            cl.get(path0)
+            del calls[:]
         resp = cl.get(path)
         out['status'] = resp.status_code
     except TypeError as e:
@@ -265,6 +270,7 @@ def run(case):
         return out
     # C02: each received value is the value of its source
     problems = []
+    requests_seen = []
     url = case.get('url', [])
     provided_by = {}
     for i, mw in enumerate(case.get('mws', [])):
@@ -293,9 +299,22 @@ def run(case):
                 elif val != ('SENTINEL', src, name):
                     problems.append('%s.%s = %r, expected value from %s' % (who, name, val, src))
             elif name in BUILTINS:
-                pass
+                if isinstance(val, Default):
+                    problems.append('%s.%s fell back to its default although it is a built-in' % (who, name))
+                elif name == 'request':
+                    if getattr(val, 'path', None) != path:
+                        problems.append('%s.request is not this request (%r)' % (who, getattr(val, 'path', val)))
+                    requests_seen.append(val)
+                elif name == '_application' and val is not app:
+                    problems.append('%s._application = %r, expected the dispatching application' % (who, val))
+                elif name == '_route' and val is not app.routes[0]:
+                    problems.append('%s._route = %r, expected the matched route' % (who, val))
+                elif name == '_dispatch_state' and type(val).__name__ != 'DispatchState':
+                    problems.append('%s._dispatch_state = %r' % (who, val))
             elif not isinstance(val, Default):
                 problems.append('%s.%s = %r from no declared source' % (who, name, val))
+    if any(r is not requests_seen[0] for r in requests_seen):
+        problems.append('different request objects within one request')
     if resp.status_code != 200:
         problems.append('status %s' % resp.status_code)
     out['calls'] = [w for w, _ in calls]
